@@ -236,11 +236,13 @@ def run(res, tier="quick", seed=0, widen=False):
                 if (want is None) != (gi is None or gi != gi):
                     bad.append((i, gi, want))
                 continue
-            # a correctly rounded sum of the window, with head-room: 8 u * (sum of |x| over the window); the history may
-            # contribute second-order terms only
+            # the proved bound (C09_reported_sum_error, C09_history_enters_at_second_order): |reported - W| <= u |W| +
+            # (1 + u) n^2 u^2 H q^n with n <= 2 * rows seen (additions and removals) and H <= the sum of |x| over the history;
+            # stated here with a little head-room (|W| <= sum of |x| over the window; the division of a mean rounds once more)
             absw = sum((abs(x) for x in win), Fraction(0)) / (len(win) if kind == "mean" else 1)
             past = sum((abs(Fraction(v)) for v in hist[g] if v is not None and abs(v) != float("inf")), Fraction(0))
-            tol = 8 * U * absw + 64 * U * U * len(hist[g]) * past
+            n_upd = 2 * len(hist[g])
+            tol = 4 * U * absw + 2 * n_upd * n_upd * U * U * past
             if gi in (float("inf"), float("-inf")) or abs(Fraction(gi) - want) > tol:
                 bad.append((i, gi, float(want)))
         if bad:
